@@ -376,9 +376,9 @@ def run(run):
     _DOCS = docs
     seeds = [0, 1, 7, 1234] if run.tier == "quick" else [0, 1, 2, 3, 7, 42, 1234, 99999, 2**32 - 1, 314159, 271828, 5, 11, 13, 17, 65537]
     run.rule = (
-        f"Part A: corpus of {len(docs)} documents; solo table = each document alone in a fresh interpreter (PYTHONHASHSEED=0); one fresh interpreter per seed in {seeds} "
+        f"Part A: corpus of {len(docs)} documents (the first {len(RAISING_DOCS)} are documents whose conversion raises part-way - in clip, use, gradient, path-data and validation code - and share ids with later ones); solo table = each document alone in a fresh interpreter (PYTHONHASHSEED=0); one fresh interpreter per seed in {seeds} "
         "converts the whole corpus; CLI on 20 documents x 4 seeds. Part B: E1 over the Python process: canon = sha256 over a structural walk of all globals of picosvg.* "
-        "(class dicts, function defaults/closures, lru_cache sizes, regexes); action = convert(d_i); fresh fork per state, one fork per action; all ordered pairs concretely, "
+        "(class dicts, function defaults/closures, lru_cache sizes, regexes); action = convert(d_i) incl. the raising documents; fresh fork per state, one fork per action; all ordered pairs concretely, "
         "then canon-deduplicated BFS until the state set closes; all 24 permutations of six 4-document batches. Oracle: output sha256 == solo table on every transition."
     )
     violations = 0
